@@ -278,14 +278,131 @@ PROPS["C07"] = dict(
 )
 
 
+def _c18_mir_mapper(dst, tier, seed, ev):
+    """Palette-mapper half of C18: PaletteMapper::new / lookup / to_indexed_image are symbolically executed from the
+    crate's MIR (dumped from the snapshot by the nightly compiler) over z3 bit-vectors and arrays (vk/mirsmt.py,
+    vk/c18_mapper.py); the hash maps are SMT arrays, std / image calls are contract models listed in the evidence.
+    The encoder is validated on every run against the native code on fixed concrete vectors; a counterexample is
+    replayed natively before it is reported."""
+    import os, subprocess, shutil, json, re
+    work = os.path.dirname(dst)
+    env = dict(os.environ, CARGO_NET_OFFLINE="true", CARGO_TARGET_DIR=os.path.join(work, "mir_target"))
+    for k in ("RUSTFLAGS", "CARGO_ENCODED_RUSTFLAGS", "RUSTC", "RUSTUP_TOOLCHAIN"):
+        env.pop(k, None)
+    mirp = os.path.join(work, "mir.txt")
+    b = subprocess.run(["cargo", "+nightly", "rustc", "--offline", "--lib", "--features", "utils", "--", "-Zunpretty=mir",
+                        "-C", "debug-assertions=off", "-C", "overflow-checks=on"], cwd=dst, env=env, stdout=open(mirp, "w"),
+                       stderr=subprocess.PIPE, text=True)
+    if b.returncode != 0 or os.path.getsize(mirp) < 1000:
+        return 2, ["INCONCLUSIVE property=C18 MIR dump failed: " + (b.stderr or "")[-400:].replace("\n", " | ")], {}
+    outp = os.path.join(work, "c18_mir.json")
+    r = subprocess.run(["python3-vt", os.path.join(VERIF_DIR, "vk", "c18_mapper.py"), mirp, os.path.join(dst, "src"), tier, outp],
+                       stdout=subprocess.PIPE, stderr=subprocess.STDOUT, text=True, timeout=3000)
+    if not os.path.exists(outp):
+        return 2, ["INCONCLUSIVE property=C18 MIR encoder crashed: " + r.stdout[-400:].replace("\n", " | ")], {}
+    res = json.load(open(outp))
+    cov = dict(mir_smt=dict(functions_encoded=res["functions"], contract_models=res["models"], bounds=res["bounds"],
+                            queries_discharged=res["queries"], solver_s=res["solver_s"], solvers="z3 (python API) deciding; the first %s queries re-checked with cvc5 on the same SMT-LIB text: %s disagreements" % (res.get("cvc5_rechecked"), res.get("cvc5_disagree")),
+                            encoder_wall_s=res.get("wall_s"), status=res["status"], detail=res["detail"]))
+    if res["status"] == "unsupported":
+        return 2, ["INCONCLUSIVE property=C18 palette mapper: the MIR encoder does not cover the current code: " + res["detail"][:300]], cov
+    # ---- native side: translator validation vectors (always) and the counterexample (if any)
+    ce = res.get("counterexample")
+    sys_path = os.path.join(VERIF_DIR, "vk")
+    import importlib.util
+    vec = None
+    m = re.search(r"SELF_VECTORS = dict\((.*?)\n\)", open(os.path.join(sys_path, "c18_mapper.py")).read(), re.S)
+    vec = eval("dict(" + m.group(1) + ")", {"__builtins__": {}}, {"dict": dict, "None": None})
+    def rs_entries(es):
+        return ", ".join("(%d, [%d, %d, %d, %d])" % tuple(e) for e in es)
+    def rs_opt(t):
+        return "None" if t is None else "Some(%d)" % t
+    t = []
+    t.append("#[cfg(test)]\nmod vk_mir_native {\n    use super::*;\n    use crate::palette::ColorPaletteEntry;\n"
+             "    fn pal(items: &[(u32, [u8; 4])]) -> ColorPalette {\n        let mut entries = IntMap::default();\n"
+             "        for (i, c) in items {\n            entries.insert(*i, ColorPaletteEntry::vk_mk(*i, *c));\n        }\n        ColorPalette { entries }\n    }\n"
+             "    fn spec_ok(entries: &[(u32, [u8; 4])], failure: u8, transparent: Option<u8>, q: [u8; 4], got: u8) -> bool {\n"
+             "        if q[3] != 255 {\n            return got == transparent.unwrap_or(failure);\n        }\n"
+             "        let (mut below, mut above, mut ok) = (false, false, false);\n"
+             "        for (i, c) in entries {\n            if c[0] == q[0] && c[1] == q[1] && c[2] == q[2] {\n"
+             "                if *i < 256 {\n                    below = true;\n                    if got as u32 == *i {\n                        ok = true;\n                    }\n                } else {\n                    above = true;\n                }\n            }\n        }\n"
+             "        if below && !above {\n            ok\n        } else if !below {\n            got == failure\n        } else {\n            ok || got == failure\n        }\n    }\n")
+    t.append("    #[test]\n    fn self_vectors() {\n        let es = [%s];\n        let mut k = 0;\n" % rs_entries(vec["entries"]))
+    t.append("        for (failure, transparent) in [%s] {\n" % ", ".join("(%d_u8, %s)" % (o[0], rs_opt(o[1])) for o in vec["options"]))
+    t.append("            for q in [%s] {\n" % ", ".join("[%d_u8, %d, %d, %d]" % tuple(q) for q in vec["queries"]))
+    t.append("                let m = PaletteMapper::new(&pal(&es), MappingOptions { failure, transparent });\n"
+             "                println!(\"VKVEC {} {}\", k, m.lookup(q[0], q[1], q[2], q[3]));\n                k += 1;\n            }\n        }\n    }\n")
+    if ce and ce["kind"] in ("lookup", "panic"):
+        t.append("    #[test]\n    fn counterexample() {\n        let es = [%s];\n        let (failure, transparent) = (%d_u8, %s);\n        let q = [%d_u8, %d, %d, %d];\n"
+                 "        let m = PaletteMapper::new(&pal(&es), MappingOptions { failure, transparent });\n        let got = m.lookup(q[0], q[1], q[2], q[3]);\n"
+                 "        assert!(spec_ok(&es, failure, transparent, q, got), \"lookup returned {} for {:?}\", got, q);\n    }\n" % (
+                     (rs_entries(ce["entries"]), ce["failure"], rs_opt(ce["transparent"])) + tuple(ce["query"])))
+    elif ce and ce["kind"] == "image" and "pixels" in ce:
+        raw = ", ".join(str(c) for p in ce["pixels"] for c in p)
+        t.append("    #[test]\n    fn counterexample() {\n        let es = [%s];\n        let (failure, transparent) = (%d_u8, %s);\n"
+                 "        let px: Vec<u8> = vec![%s];\n        let img = RgbaImage::from_raw(%d, %d, px.clone()).unwrap();\n"
+                 "        let m = PaletteMapper::new(&pal(&es), MappingOptions { failure, transparent });\n        let ((w, h), data) = to_indexed_image(img, &m);\n"
+                 "        assert!(w == %d && h == %d && data.len() == %d, \"dimensions / length\");\n"
+                 "        for i in 0..data.len() {\n            let q = [px[4 * i], px[4 * i + 1], px[4 * i + 2], px[4 * i + 3]];\n"
+                 "            assert!(spec_ok(&es, failure, transparent, q, data[i]), \"pixel {} -> {}\", i, data[i]);\n        }\n    }\n" % (
+                     rs_entries(ce["entries"]), ce["failure"], rs_opt(ce["transparent"]), raw, ce["w"], ce["h"], ce["w"], ce["h"], ce["w"] * ce["h"]))
+    t.append("}\n")
+    test_src = "".join(t)
+    with open(os.path.join(dst, "src", "util.rs"), "a") as f:
+        f.write("\n" + test_src)
+    with open(os.path.join(dst, "src", "palette.rs"), "a") as f:
+        f.write("\n#[cfg(test)]\nimpl ColorPaletteEntry {\n    pub(crate) fn vk_mk(id: u32, rgba8: [u8; 4]) -> Self {\n        ColorPaletteEntry { id, rgba8, name: None }\n    }\n}\n")
+    env2 = dict(os.environ, CARGO_NET_OFFLINE="true", CARGO_TARGET_DIR=os.path.join(work, "native_target"))
+    for k in ("RUSTFLAGS", "CARGO_ENCODED_RUSTFLAGS", "RUSTC", "RUSTUP_TOOLCHAIN"):
+        env2.pop(k, None)
+    n = subprocess.run(["cargo", "test", "--offline", "--features", "utils", "--lib", "vk_mir_native", "--", "--nocapture", "--test-threads", "1"],
+                       cwd=dst, env=env2, stdout=subprocess.PIPE, stderr=subprocess.STDOUT, text=True, timeout=1800)
+    out = n.stdout
+    got = {int(a): int(b) for a, b in re.findall(r"VKVEC (\d+) (\d+)", out)}
+    native = [got.get(i) for i in range(len(res["self_vectors"]))]
+    cov["mir_smt"]["translator_validation"] = "%d fixed concrete vectors through the native code and through the encoding: %s" % (
+        len(native), "all equal" if native == res["self_vectors"] else "DIFFER")
+    if "test result" not in out:
+        return 2, ["INCONCLUSIVE property=C18 native validation program failed to build: " + out[-500:].replace("\n", " | ")], cov
+    if native != res["self_vectors"]:
+        return 2, ["INCONCLUSIVE property=C18 the MIR encoding and the native code disagree on the validation vectors: native=%s encoded=%s" % (native, res["self_vectors"])], cov
+    if not ce:
+        return 0, [], cov
+    rd = os.path.join(os.environ.get("VERIF_REPLAY_ROOT") or os.path.join(VERIF_DIR, "replays"), "C18", "mir_palette_mapper")
+    failed = re.search(r"^failures:\n(?:.*\n)*?\s+util::vk_mir_native::counterexample\s*$", out, re.M) is not None
+    if ce["kind"] == "image" and "pixels" not in ce:
+        failed = False
+    if not failed:
+        return 2, ["INCONCLUSIVE property=C18 solver counterexample for the palette mapper did not reproduce natively (iteration-order dependent?): " + json.dumps(ce)[:300]], cov
+    shutil.rmtree(rd, ignore_errors=True)
+    os.makedirs(rd, exist_ok=True)
+    json.dump(ce, open(os.path.join(rd, "counterexample.json"), "w"), indent=1)
+    open(os.path.join(rd, "native_test.rs"), "w").write(test_src)
+    open(os.path.join(rd, "native_output.txt"), "w").write(out[-4000:])
+    open(os.path.join(rd, "HOWTO.txt"), "w").write("append native_test.rs to src/util.rs and the vk_mk constructor (see vk/props.py) to src/palette.rs, then\n"
+                                                  "cargo test --offline --features utils --lib vk_mir_native::counterexample\n")
+    return 1, ["VIOLATION property=C18 replay=%s" % rd,
+               "  palette mapper (MIR -> z3): %s (reproduced natively)" % json.dumps(ce)[:400]], cov
+
+
 PROPS["C18"] = dict(
     prefix="c18_",
     overlays=[("util", "vk_c18.rs")],
     features=["utils"],
-    bounds="extrude_border on 1x1, 2x2 (quick), 3x1, 1x3 (thorough) images with symbolic pixels",
-    outside="PARTIAL: PaletteMapper::new / lookup / to_indexed_image are NOT decided -- they iterate one hash map and fill another "
-            "(hashbrown under CBMC: a 3-entry harness did not finish in 15 min, R11); larger images",
-    level_text="Bounded model checking of extrude_border; the palette-mapper half of the property is not decided (see level_note).",
+    post=_c18_mir_mapper,
+    technique="extrude_border: SMT/SAT-based bounded model checking of the compiled code (Kani harnesses, CBMC back end). "
+              "PaletteMapper::new / lookup / to_indexed_image: symbolic execution of the crate's MIR (rustc -Zunpretty=mir, regenerated on every "
+              "run) into z3 bit-vector / array terms, negated specification decided by z3 and re-checked by cvc5; counterexamples replayed natively",
+    bounds="extrude_border on 1x1, 2x2 (quick), 3x1, 1x3 (thorough) images with symbolic pixels (Kani). Palette mapper (MIR -> z3): "
+           "palettes of 0..3 (quick) / 0..4 (thorough) entries with symbolic pairwise-distinct indices over all of u32 and symbolic colours, "
+           "visited in an arbitrary order; all mapping options; all query colours; to_indexed_image on 2x1 (quick), 2x2 and 1x3 (thorough) "
+           "images of symbolic pixels; panic freedom of the MIR overflow / bounds asserts on the same inputs",
+    outside="palettes with more entries and larger images (the per-entry / per-pixel code is the same; argument, not verdict); "
+            "hashbrown / nohash themselves and image's pixels()/dimensions(): replaced by the contract models listed in the evidence "
+            "(a real-map Kani harness does not finish: Kani's simd_bitmask model leaves hashbrown's group scan symbolic, R11); "
+            "a colour that occurs both below and at/above index 256: the statement is read as allowing either such an index or the "
+            "failure index (which one the crate returns depends on the map's iteration order)",
+    level_text="Bounded model checking of extrude_border (Kani/CBMC) and bounded symbolic execution of the palette mapper's MIR (z3, cvc5 re-check).",
 )
 
 
